@@ -5,6 +5,8 @@
 // {Cxx} lists the properties a clause serves.
 package interpreter
 
+//@ safetyprop C12
+
 //@ func (*programState).pushSender
 //@   requires [nonnil] st != nil && monetary != nil
 //@   ensures [zero-dropped] {C02} val(monetary) == 0 ==> st.Senders == old(st.Senders)
@@ -44,8 +46,8 @@ package interpreter
 // ---------------------------------------------------------------- balances cache (abstract view)
 
 // bal: the balance a statement sees (0 when the pair is not in the cache); known: presence in the cache
-//@ spec known(st, a, c) = has(st.CachedBalances, a) && has(st.CachedBalances[a], c)
-//@ spec bal(st, a, c) = ite(has(st.CachedBalances, a) && has(st.CachedBalances[a], c), val(st.CachedBalances[a][c]), 0)
+//@ view known(st, a, c) = has(st.CachedBalances, a) && has(st.CachedBalances[a], c)
+//@ view bal(st, a, c) = ite(has(st.CachedBalances, a) && has(st.CachedBalances[a], c), val(st.CachedBalances[a][c]), 0)
 //@ spec cacheOk(st) = st != nil && st.CachedBalances != nil && cacheCells(st) && cacheDistinct(st)
 //@ spec cacheCells(st) = forallstr(a, has(st.CachedBalances, a) ==> st.CachedBalances[a] != nil && forallstr(c, has(st.CachedBalances[a], c) ==> st.CachedBalances[a][c] != nil))
 // every account has its own map of assets (the cache owns them: they are created by the interpreter)
@@ -53,6 +55,9 @@ package interpreter
 //@ spec sendersOk(st) = forall(j, 0, len(st.Senders), st.Senders[j].Monetary != nil)
 // amount already queued from account a by the statement being executed
 //@ spec pulled(st, a) = sumMonBy(st.Senders, len(st.Senders), a)
+// the cache only grows: known cells keep their identity, new cells are freshly allocated
+//@ spec cacheGrew(st) = forallstr(a, c, (old(known(st, a, c)) ==> known(st, a, c) && st.CachedBalances[a][c] == old(st.CachedBalances[a][c])) && (known(st, a, c) && !old(known(st, a, c)) ==> fresh(ref(st.CachedBalances[a][c]))))
+//@ spec notCell(st, p) = forallstr(a, c, known(st, a, c) ==> st.CachedBalances[a][c] != p)
 
 //@ func (*programState).getCachedBalance
 //@   requires [cache] cacheOk(s)
@@ -60,6 +65,7 @@ package interpreter
 //@   ensures [value] {C01,C04,C10} val(result) == old(bal(s, account, asset))
 //@   ensures [default-fresh] {C11} !old(known(s, account, asset)) ==> fresh(ref(result))
 //@   ensures [view-unchanged] {C01,C09,C10} forallstr(a, forallstr(c, bal(s, a, c) == old(bal(s, a, c))))
+//@   ensures [cache-grew] {C10,C11} cacheGrew(s)
 //@   ensures [known-grows] {C10} forallstr(a, forallstr(c, old(known(s, a, c)) ==> known(s, a, c)))
 //@   ensures [cache-ok] cacheOk(s)
 //@   ensures [amounts-untouched] {C11} heapsame(bigint)
@@ -99,7 +105,97 @@ package interpreter
 //@   ensures [pushed] {C02,C04} err == nil && val(result) != 0 ==> len(s.Senders) == old(len(s.Senders)) + 1 && s.Senders[old(len(s.Senders))].Name == acc && s.Senders[old(len(s.Senders))].Monetary == result
 //@   ensures [prefix-kept] {C04} err == nil ==> len(s.Senders) >= old(len(s.Senders)) && forall(j, 0, old(len(s.Senders)), s.Senders[j] == old(s.Senders[j]))
 //@   ensures [not-pushed] {C02} err == nil && val(result) == 0 ==> s.Senders == old(s.Senders)
+//@   ensures [total] {C03} err == nil ==> sumMon(s.Senders, len(s.Senders)) == old(sumMon(s.Senders, len(s.Senders))) + val(result)
+//@   ensures [pulled-acc] {C01} err == nil ==> pulled(s, acc) == old(pulled(s, acc)) + val(result)
+
 //@   ensures [view-unchanged] {C01,C09} forallstr(a, forallstr(c, bal(s, a, c) == old(bal(s, a, c))))
+//@   ensures [cache-grew] {C10,C11} cacheGrew(s)
 //@   ensures [state-ok] stateOk(s)
 //@   ensures [amounts-untouched] {C11} heapsame(bigint)
 //@   modifies s.Senders, entries(s.CachedBalances), allentries("map[string]*math/big.Int")
+
+// The account leaf of a send-all draw: everything the account may still give,
+//   max(0, B + overdraft - P); @world and unbounded overdraft are rejected.
+//@ func (*programState).sendAllToAccount
+//@   requires [wf] wf(accountLiteral)
+//@   requires [state] stateOk(s)
+//@   let v = evalOf(s, accountLiteral)
+//@   let acc = as(v, AccountAddress)
+//@   ensures [error-iff] {C04,C12} (err != nil) == (evalErr(s, accountLiteral) != nil || !typeis(v, AccountAddress) || acc == "world" || ovedraft == nil)
+//@   ensures [rejects] {C04,C17} evalErr(s, accountLiteral) == nil && typeis(v, AccountAddress) && (acc == "world" || ovedraft == nil) ==> typeis(err, InvalidUnboundedInSendAll)
+//@   ensures [error-kind] {C12} err != nil && evalErr(s, accountLiteral) == nil && !typeis(v, AccountAddress) ==> typeis(err, TypeError)
+//@   ensures [error-atomic] {C03,C12} err != nil ==> result == nil && s.Senders == old(s.Senders)
+//@   ensures [drain] {C01,C04} err == nil ==> result != nil && val(result) == max(0, old(bal(s, acc, s.CurrentAsset)) + val(ovedraft) - old(pulled(s, acc)))
+//@   ensures [fresh] {C05,C11} err == nil ==> fresh(ref(result))
+//@   ensures [pushed] {C02,C04} err == nil && val(result) != 0 ==> len(s.Senders) == old(len(s.Senders)) + 1 && s.Senders[old(len(s.Senders))].Name == acc && s.Senders[old(len(s.Senders))].Monetary == result
+//@   ensures [prefix-kept] {C04} err == nil ==> len(s.Senders) >= old(len(s.Senders)) && forall(j, 0, old(len(s.Senders)), s.Senders[j] == old(s.Senders[j]))
+//@   ensures [not-pushed] {C02} err == nil && val(result) == 0 ==> s.Senders == old(s.Senders)
+//@   ensures [total] {C03} err == nil ==> sumMon(s.Senders, len(s.Senders)) == old(sumMon(s.Senders, len(s.Senders))) + val(result)
+//@   ensures [pulled-acc] {C01} err == nil ==> pulled(s, acc) == old(pulled(s, acc)) + val(result)
+
+//@   ensures [view-unchanged] {C01,C09} forallstr(a, forallstr(c, bal(s, a, c) == old(bal(s, a, c))))
+//@   ensures [cache-grew] {C10,C11} cacheGrew(s)
+//@   ensures [state-ok] stateOk(s)
+//@   ensures [amounts-untouched] {C11} heapsame(bigint)
+//@   modifies s.Senders, entries(s.CachedBalances), allentries("map[string]*math/big.Int")
+
+// ---------------------------------------------------------------- sources: trees
+
+// what every draw function guarantees about the sender queue (append-only, positive, owned amounts)
+//@ spec sendersGrew(s, L0) = len(s.Senders) >= L0
+//@ spec newSendersOk(s, L0) = forall(j, L0, len(s.Senders), s.Senders[j].Monetary != nil && val(s.Senders[j].Monetary) > 0 && fresh(ref(s.Senders[j].Monetary)))
+
+//@ func (*programState).makeAllotment
+//@   requires [wf] monetary != nil && val(monetary) >= 0 && wf(items)
+//@   requires [state] varsOk(s)
+//@   ensures [len] {C06} err == nil ==> len(result) == len(items)
+//@   ensures [sum] {C03,C05,C06} err == nil ==> sumVals(result, len(result)) == val(monetary)
+//@   ensures [parts] {C02,C06} err == nil ==> forall(i, 0, len(result), result[i] != nil && val(result[i]) >= 0 && fresh(ref(result[i])))
+//@   ensures [amounts-untouched] {C11} heapsame(bigint)
+//@   modifies nothing
+
+//@ func (*programState).trySendingExact
+//@   requires [wf] wf(source) && amount != nil && val(amount) >= 0
+//@   requires [state] stateOk(s)
+//@   ensures [exact] {C03} err == nil ==> sumMon(s.Senders, len(s.Senders)) == old(sumMon(s.Senders, len(s.Senders))) + val(amount)
+//@   ensures [prefix-kept] {C04} err == nil ==> len(s.Senders) >= old(len(s.Senders)) && forall(j, 0, old(len(s.Senders)), s.Senders[j] == old(s.Senders[j]))
+//@   ensures [new-senders] {C02,C05} err == nil ==> newSendersOk(s, old(len(s.Senders)))
+//@   ensures [view-unchanged] {C01,C09} forallstr(a, forallstr(c, bal(s, a, c) == old(bal(s, a, c))))
+//@   ensures [cache-grew] {C10,C11} cacheGrew(s)
+//@   ensures [state-ok] stateOk(s)
+//@   ensures [amounts-untouched] {C11} heapsame(bigint)
+//@   modifies s.Senders, entries(s.CachedBalances), allentries("map[string]*math/big.Int")
+
+// Tries sending "amount" and returns what was actually sent (fresh, or the argument itself in the allotment case)
+//@ func (*programState).trySendingUpTo
+//@   requires [wf] wf(source) && amount != nil && val(amount) >= 0
+//@   requires [state] stateOk(s)
+//@   ensures [range] {C02,C03,C04} err == nil ==> result != nil && 0 <= val(result) && val(result) <= val(amount)
+//@   ensures [total] {C03,C04} err == nil ==> sumMon(s.Senders, len(s.Senders)) == old(sumMon(s.Senders, len(s.Senders))) + val(result)
+//@   ensures [result-owned] {C05,C11} err == nil ==> fresh(ref(result)) || result == amount
+//@   ensures [prefix-kept] {C04} err == nil ==> len(s.Senders) >= old(len(s.Senders)) && forall(j, 0, old(len(s.Senders)), s.Senders[j] == old(s.Senders[j]))
+//@   ensures [new-senders] {C02,C05} err == nil ==> newSendersOk(s, old(len(s.Senders)))
+//@   ensures [view-unchanged] {C01,C09} forallstr(a, forallstr(c, bal(s, a, c) == old(bal(s, a, c))))
+//@   ensures [cache-grew] {C10,C11} cacheGrew(s)
+//@   ensures [state-ok] stateOk(s)
+//@   ensures [amounts-untouched] {C11} heapsame(bigint)
+//@   modifies s.Senders, entries(s.CachedBalances), allentries("map[string]*math/big.Int")
+//@   loop 1
+//@     invariant [left] {C03,C04} val(totalLeft) + sumMon(s.Senders, len(s.Senders)) == val(amount) + old(sumMon(s.Senders, len(s.Senders)))
+//@     invariant [left-range] {C04} totalLeft != nil && fresh(ref(totalLeft)) && 0 <= val(totalLeft) && val(totalLeft) <= val(amount)
+//@     invariant [noalias] forall(j, 0, len(s.Senders), s.Senders[j].Monetary != totalLeft) && notCell(s, totalLeft)
+//@     invariant [cache-grew] cacheGrew(s)
+//@     invariant [prefix] len(s.Senders) >= old(len(s.Senders)) && forall(j, 0, old(len(s.Senders)), s.Senders[j] == old(s.Senders[j]))
+//@     invariant [new-senders] newSendersOk(s, old(len(s.Senders)))
+//@     invariant [view] forallstr(a, forallstr(c, bal(s, a, c) == old(bal(s, a, c))))
+//@     invariant [state] stateOk(s)
+//@   loop 2
+//@     invariant [items] len(items) == iter && forall(j, 0, iter, items[j] == as(source, *parser.SourceAllotment).Items[j].Allotment)
+//@   loop 3
+//@     invariant [sent] {C03} sumMon(s.Senders, len(s.Senders)) == old(sumMon(s.Senders, len(s.Senders))) + sumVals(allot, iter)
+//@     invariant [allot] len(allot) == len(as(source, *parser.SourceAllotment).Items) && sumVals(allot, len(allot)) == val(amount) && forall(j, 0, len(allot), allot[j] != nil && val(allot[j]) >= 0)
+//@     invariant [prefix] len(s.Senders) >= old(len(s.Senders)) && forall(j, 0, old(len(s.Senders)), s.Senders[j] == old(s.Senders[j]))
+//@     invariant [new-senders] newSendersOk(s, old(len(s.Senders)))
+//@     invariant [view] forallstr(a, forallstr(c, bal(s, a, c) == old(bal(s, a, c))))
+//@     invariant [cache-grew] cacheGrew(s)
+//@     invariant [state] stateOk(s)
